@@ -31,9 +31,18 @@ void free(void* p) {
   __CPROVER_assert(valid_node(p), "[C05] a Tree entry is freed once, and only an allocated one");
   cv_dead[idx(p)] = 1; cv_frees++;
 }
-static OBJ(Ref, SRC);
-size_t len(var self) { return 0; } var get(var self, var key) { return NULL; } var instance(var self, var cls) { return NULL; }
-var method_at_offset(var self, var cls, size_t offset, const char* m) { return NULL; } bool implements_method_at_offset(var self, var cls, size_t offset) { return false; }
+/* ghost operand map for cmp: MOP entries (key, value) in the operand's iteration order */
+#ifndef MOP
+#define MOP 1
+#endif
+static OBJ(Ref, SRC); static var src; static struct { struct Header h; struct Elem v; } OK_[MOP + 1], OV_[MOP + 1];
+static var op_init(var self) { return MOP ? (var)&OK_[0].v : Terminal; }
+static var op_next(var self, var curr) { size_t i = ((char*)curr - (char*)&OK_[0].v) / sizeof(OK_[0]); return i + 1 < MOP ? (var)&OK_[i + 1].v : Terminal; }
+static struct Iter cv_op_iter = { op_init, op_next, NULL, NULL, NULL };
+size_t len(var self) { return MOP; }
+var get(var self, var key) { size_t i = ((char*)key - (char*)&OK_[0].v) / sizeof(OK_[0]); __CPROVER_assert(self == src && i < MOP, "get(operand, key) with a key of the operand"); return &OV_[i].v; }
+var instance(var self, var cls) { return &cv_op_iter; }
+var method_at_offset(var self, var cls, size_t offset, const char* m) { return &cv_op_iter; } bool implements_method_at_offset(var self, var cls, size_t offset) { return false; }
 
 static struct { struct Header h; struct Tree v; } TO; static struct Tree* t;
 static int64_t in_val[SH_N + 1]; static int64_t in_v; static OBJ(Elem, KX); static OBJ(Elem, VX); static var kx, vx;
@@ -175,4 +184,24 @@ void h_mark(void) {
   Tree_Mark(t, cv_mk_gc, cv_mark_cb);
   ASSERT(cv_mk_calls == 2 * SH_N && (SH_N == 0 || cv_mk_hits == 1), "[C01] Tree_Mark passes every key and every value to the callback exactly once");
   COVER(1, "mark done");
+}
+
+/* C09/C10: Tree hash = XOR over keys and values; Tree cmp = lexicographic over (key, value) in iteration order, shorter first */
+void h_hash_cmp(void) {
+  build();
+  src = MK(SRC, Ref, AllocStack);
+  for (int i = 0; i < MOP; i++) { header_init(&OK_[i].h, ELEM, AllocData); header_init(&OV_[i].h, ELEM, AllocData); OK_[i].v.val = nondet_long(); OV_[i].v.val = nondet_long(); OK_[i].v.tok = 1; OV_[i].v.tok = 1; }
+  uint64_t h = 0; for (int i = 0; i < SH_N; i++) h ^= cv_hash_of(sh_key[i]) ^ cv_hash_of(in_val[i]);
+  ASSERT(Tree_Hash(t) == h, "[C10] the hash of a Tree is the XOR of its keys' and values' hashes (a function of the contents, whatever the shape)");
+  /* the Tree's own iteration order: keys descending */
+  int64_t ks[SH_N + 1], vs[SH_N + 1]; int n = 0;
+  for (int64_t k = 2 * SH_N; k >= 2; k -= 2) for (int i = 0; i < SH_N; i++) if (sh_key[i] == k) { ks[n] = k; vs[n] = in_val[i]; n++; }
+  int want = 0;
+  for (int j = 0; j < SH_N || j < MOP; j++) {
+    if (j >= SH_N) { want = -1; break; } if (j >= MOP) { want = 1; break; }
+    if (ks[j] < OK_[j].v.val) { want = -1; break; } if (ks[j] > OK_[j].v.val) { want = 1; break; }
+    if (vs[j] < OV_[j].v.val) { want = -1; break; } if (vs[j] > OV_[j].v.val) { want = 1; break; }
+  }
+  ASSERT(Tree_Cmp(t, src) == want, "[C09] cmp on Tree is the lexicographic order over (key, value) pairs, key then value, shorter first");
+  COVER(SH_N != MOP || SH_N == 0 || want == 0, "equal maps");
 }
